@@ -19,6 +19,13 @@ CLAIMED = {
             "under follow_redirects; nothing is appended after the body (known finding). Structural clauses only."),
 }
 
+CLAIMED["C02"] = ("DESIGN.md §4 C02",
+    "R-TABLE (method / header-name tables), R-CALLS (who-may-read: only read_exact/read_until; no unstable sort), R-FLOW (body length, X-Forwarded-For element provenance) on sync and tokio builds",
+    "Decides on both runtimes: Method and HeaderType name tables are inverse bijections with case-insensitive header matching; header storage and "
+    "serialisation keep the relative order of same-named fields; the parser reads only through read_exact/read_until (results cannot depend on "
+    "segmentation) and sizes the body by the parsed Content-Length; X-Forwarded-For elements are trimmed, origin = last listed, peer appended. "
+    "Does not decide that parsed field values equal what the bytes denote.")
+
 NOT_YET = {}
 
 NOT_APPLICABLE = {
